@@ -43,3 +43,20 @@ Theorem C13_omega_code_eq_spec_small : forall k l m lam mu rho sigma, k <= 1 -> 
   Qeq (obar_code QOps 10 k l m lam mu rho sigma) (obar_spec QOps k l m lam mu rho sigma).
 Proof. exact omega_code_eq_spec_small. Qed.
 Print Assumptions C13_omega_code_eq_spec_small.
+
+(* makeOmega on the whole domain the W theorem reaches (structural proof, no enumeration over Omega entries): the table
+   as coded -- filled for lam <= rho from the U coefficients and W, mirrored store -- equals the double integral of
+   x^k y^l z^m Y(lam,mu) Y(rho,sigma) taken term by term, for all harmonics up to 10 and every monomial with
+   k,l,m + min(lam,rho) <= 12 (covers k,l,m <= 7 with a projector up to 5, i.e. every class incl. second derivatives). *)
+From LV Require Import Angular.AngOmega.
+Theorem C13_omega_code_eq_spec : forall k l m lam mu rho sigma,
+  lam <= 10 -> rho <= 10 -> k + Nat.min lam rho <= 12 -> l + Nat.min lam rho <= 12 -> m + Nat.min lam rho <= 12 ->
+  (- Z.of_nat lam <= mu <= Z.of_nat lam)%Z -> (- Z.of_nat rho <= sigma <= Z.of_nat rho)%Z ->
+  Qeq (obar_code QOps 10 k l m lam mu rho sigma) (obar_spec QOps k l m lam mu rho sigma).
+Proof. exact omega_code_eq_spec. Qed.
+Print Assumptions C13_omega_code_eq_spec.
+(* the double integral is symmetric in the two harmonics (what justifies the mirrored store) *)
+Theorem C13_obar_spec_sym : forall k l m lam mu rho sigma,
+  Qeq (obar_spec QOps k l m lam mu rho sigma) (obar_spec QOps k l m rho sigma lam mu).
+Proof. exact obar_spec_sym. Qed.
+Print Assumptions C13_obar_spec_sym.
